@@ -54,7 +54,18 @@ check('C10', 'model_checking',
       'TLA+ model checking (TLC) + trace validation of a closed structure-aware mutation corpus',
       'DESIGN.md 4/C10')
 
-PENDING = ['C01', 'C02', 'C03', 'C04', 'C05', 'C06', 'C07', 'C08', 'C11', 'C12', 'C15', 'C16', 'C17', 'C18']
+check('C12', 'model_checking',
+      'SpyneWsdlCache.tla (one action per shared access of handle_wsdl_request, failing first build included) is model-checked '
+      'for 2-4 threads (built once, whole document, lock discipline, every requester answers) and every 2-thread behaviour '
+      '(an edge cover plus random walks for 3 threads) is IMPOSED on a real WsgiApplication with the real state compared '
+      'after each step. Real schedules of 2-4 racing ?wsdl requests are enumerated with a preemption bound at shared-access '
+      'and at Python-line granularity; every access trace is validated by TLC. SpyneShared.tla models the lazy prefix '
+      'allocator and idempotent cache fills; mixed real requests (polymorphic returns in foreign namespaces, faults, '
+      'validation failures, ?wsdl) are explored at line granularity and each response compared with the sequential oracle.',
+      'TLA+ model checking (TLC) + imposing TLC behaviours on real threads + preemption-bounded schedule enumeration with trace validation',
+      'DESIGN.md 4/C12')
+
+PENDING = ['C01', 'C02', 'C03', 'C04', 'C05', 'C06', 'C07', 'C08', 'C11', 'C15', 'C16', 'C17', 'C18']
 
 def main():
     import importlib
